@@ -2,7 +2,7 @@ import vpdriver
 
 # printf_impl.c and the sprintf shim are compiled like a bare-metal build would: their
 # atoi/strlen/ctype are the shim's own (same igc_ group), math stays the host's.
-PRINTF_UNITS = vpdriver.libc_units(["stdio/sprintf.c", "stdlib/atol.c", "string/strlen.c"]) + [
+PRINTF_UNITS = vpdriver.libc_units(["stdio/sprintf.c", "stdio/fdprintf.c", "stdio/fdputc.c", "stdlib/atol.c", "string/strlen.c"]) + [
     {"src": "R:igris/util/printf_impl.c", "group": "igc_", "flags": vpdriver.LIBC_FLAGS},
 ]
 
